@@ -183,6 +183,7 @@ func (b *BloomSearchEngine) IngestRows(ctx context.Context, rows []map[string]an
 	// cannot block Stop indefinitely.
 	select {
 	case b.ingestChan <- req:
+		verifEv("accepted", req)
 		return nil
 	case <-ctx.Done():
 		return ctx.Err()
@@ -206,6 +207,7 @@ func (b *BloomSearchEngine) Flush(ctx context.Context) error {
 
 	select {
 	case b.ingestChan <- req:
+		verifEv("accepted", req)
 		b.stateMu.RUnlock()
 		// Wait for flush to complete (once committed, let it finish)
 		return <-doneChan
@@ -217,6 +219,7 @@ func (b *BloomSearchEngine) Flush(ctx context.Context) error {
 
 func (b *BloomSearchEngine) ingestWorker() {
 	defer func() {
+		verifEv("actor_exit")
 		close(b.ingestDone)
 		b.wg.Done()
 	}()
@@ -336,6 +339,7 @@ func (b *BloomSearchEngine) processIngestRequest(
 	bufferedBytes *int,
 	bufferStartTime *time.Time,
 ) {
+	verifEv("actor_recv", req)
 	// If this is a force flush request, route it through the flush FIFO even
 	// with nothing buffered: flushBufferedData enqueues an ack-only flush
 	// request in that case, so the ack is ordered behind all in-flight flush
@@ -355,6 +359,7 @@ func (b *BloomSearchEngine) processIngestRequest(
 	// An empty batch has nothing to make durable: ack immediately and leave
 	// the buffers untouched (no empty partition buffer, no 0-row block).
 	if len(req.rows) == 0 {
+		verifEv("actor_ack", req)
 		sendOptionalWithContext(ctx, req.doneChan, nil)
 		return
 	}
@@ -381,6 +386,7 @@ func (b *BloomSearchEngine) processIngestRequest(
 		for i, row := range rows {
 			rowBytes, err := json.Marshal(row)
 			if err != nil {
+				verifEv("actor_ack", req, err)
 				sendOptionalWithContext(ctx, req.doneChan, fmt.Errorf("failed to serialize row: %w", err))
 				return
 			}
@@ -416,6 +422,7 @@ func (b *BloomSearchEngine) processIngestRequest(
 				for _, createdID := range createdPartitions {
 					delete(partitionBuffers, createdID)
 				}
+				verifEv("actor_ack", req, err)
 				sendOptionalWithContext(ctx, req.doneChan, fmt.Errorf("failed to create compression writer: %w", err))
 				return
 			}
@@ -560,10 +567,13 @@ func (b *BloomSearchEngine) triggerFlush(partitionBuffers map[string]*partitionB
 		doneChans:        doneChans,
 	}
 
+	verifEv("enqueue_intent", doneChans)
 	select {
 	case b.flushChan <- flushReq:
+		verifEv("enqueued", doneChans)
 		// Successfully queued for flush
 	case <-b.flushCtx.Done():
+		verifEv("enqueue_abandoned", doneChans)
 		// Shutdown deadline expired: the flush worker will not take this
 		// request. Deliver the failure to ready waiters; flushCtx is already
 		// canceled so blocked channels are given up immediately.
